@@ -288,10 +288,38 @@ func (s *scen) merge(from int, b []change) int {
 	stats["changes"] += len(b)
 	if ok == 0 {
 		s.dead = true
-	} else if bt.TreeLevels() >= 7 {
+	} else if bt.TreeLevels() >= 6 {
 		// harness limit, not a finding: iterators hold at most 8 levels, reachable only
-		// with tiny split factors and many cycles (DESIGN F13 note)
+		// with tiny split factors and many insert/delete cycles (nodes are never merged);
+		// the margin of 3 covers level growth inside one batch (DESIGN F13 note)
 		s.tr.Emit(vh.E("Note", "what", "scenario ended: tree levels reached the iterator limit", "n", bt.TreeLevels()))
+		s.dead = true
+	}
+	return v
+}
+
+// reopen serializes the btree header (root offset, tree levels) and reads it back, as the
+// database does when it loads an index: the new handle must show the same content
+func (s *scen) reopen(from int) int {
+	sh := s.shadow[from-1]
+	n := 0
+	for _, id := range sh {
+		if id != 0 {
+			n++
+		}
+	}
+	var bt *btree.T
+	ok, msg := safely(func() {
+		buf := make([]byte, 16)
+		s.vers[from-1].Write(stor.NewWriter(buf))
+		bt = btree.Read(s.st, stor.NewReader(buf), n)
+	})
+	s.vers = append(s.vers, bt)
+	s.shadow = append(s.shadow, sh)
+	v := len(s.vers)
+	s.tr.Emit(vh.E("Reopen", "from", from, "v", v, "ok", ok, "msg", msg))
+	stats["reopens"]++
+	if ok == 0 {
 		s.dead = true
 	}
 	return v
@@ -564,6 +592,13 @@ func generic(tr *vh.Trace, rnd *rand.Rand, kind string, K int, style nastykeys.S
 		s.state(v)
 		if rnd.Intn(4) == 0 {
 			s.state(from) // the old version must be unchanged
+		}
+		if rnd.Intn(5) == 0 && !s.dead {
+			v = s.reopen(v) // becomes the latest version
+			if s.dead {
+				return
+			}
+			s.state(v)
 		}
 		if rnd.Intn(3) == 0 {
 			s.chkKeys(v)
